@@ -212,9 +212,9 @@ def run(ctx):
     with open(bad_canary, "w") as f:
         json.dump(ct, f)
     crow = rt.drive(ctx, binary, "TestVerifC33Table", os.path.join(outdir, "canary.ndjson"), env={"VERIF_TABLES": bad_canary})
-    cm = [r for r in crow if r.get("kind") == "mismatch" and (r["a"], r["b"]) == ("a", "b")]
-    if len(cm) != 1:
-        raise InfraError("binding canary: a corrupted table entry for (\"a\",\"b\") was not reported by the driver")
+    canary_trouble = []      # fatal (exit 2) only when the run found no violation at all, see the end
+    if not any(r.get("kind") == "mismatch" and (r["a"], r["b"]) == ("a", "b") for r in crow):
+        canary_trouble.append("a corrupted table entry for (\"a\",\"b\") was not among the differences reported by the driver")
 
     # ---- laws directly on the real outputs
     lrows = rt.drive(ctx, binary, "TestVerifC33Laws", os.path.join(outdir, "laws.ndjson"),
@@ -254,7 +254,7 @@ def run(ctx):
                      % (rt.q(o["sa"]), rt.q(o["sb"]), _show(b["got"]), _show(b["exp"]), b["case"], ctx.seed),
                 replay={"call": "strutil.VersionCompare", "a": o["sa"], "b": o["sb"], "real": b["got"], "reference": b["exp"]}))
     if not canary_seen:
-        raise InfraError("binding canary: a corrupted observation (case 0) was accepted by TraceDebVersion")
+        canary_trouble.append("a corrupted observation (case 0) was accepted by TraceDebVersion")
     checked -= len(extra)
     if checked != nobs or nobs != nrand:
         raise InfraError("I->T: %d observations recorded, %d written, %d validated" % (nrand, nobs, checked))
@@ -284,6 +284,8 @@ def run(ctx):
         c = v.key.split(":")[0].split(" ")[0]
         by_class[c] = by_class.get(c, 0) + 1
     ctx.log("violations by class: %s" % (by_class or "none"))
+    if canary_trouble and not uniq:
+        raise InfraError("binding canary: " + "; ".join(canary_trouble))
 
     cov = {
         "evaluations": evals + lst["pairs"] + checked + cons["evaluations"],
@@ -309,7 +311,8 @@ def run(ctx):
         "tlc_table_runs": len(tjobs),
         "consumers": cons,
         "violations_by_class": by_class,
-        "binding_canaries": "corrupted table entry and corrupted observation both rejected",
+        "binding_canaries": ("corrupted table entry and corrupted observation both rejected" if not canary_trouble
+                             else "TROUBLE (run has violations): " + "; ".join(canary_trouble)),
     }
     return Result(level="exploration", coverage=cov,
                   assumptions=[
